@@ -107,6 +107,17 @@ def sampler_config(draw, kinds=ALL_KINDS, bounds="maybe", max_d=4, temps=(1.0, 1
             # reach so that the unchanged library stays well-defined on these histories)
             knobs["chk_int"] = 10 ** 9
             knobs["max_tries"] = 10 ** 9
+    # the representation of otherwise ordinary arguments (the properties quantify over inputs, not over float64 C arrays):
+    # posterior / start passed positionally, float32 widths or start, start as a python list, a read-only, non-contiguous
+    # or Fortran-ordered start array.  The unchanged library accepts all of these (ensemble: no lists).
+    form = draw(st.sampled_from(["plain"] * 7 + ["positional", "f32_widths", "f32_start", "list_start", "readonly_start",
+                                                 "noncontig_start", "fortran_start"]))
+    if draw(st.integers(0, 5)) == 0:
+        cfg["np_ints"] = True  # integer arguments (m, burn, thin, samples, index) passed as numpy integer scalars
+    if form == "f32_start" and bounded:
+        form = "plain"  # (rounding a start point to float32 can move it out of the box it was drawn in)
+    if form != "plain" and not cfg.get("int_start") and not (form == "list_start" and kind == "ensemble"):
+        cfg["arg_form"] = form
     if gibbs_limits and kind in ("gibbs", "metropolis") and draw(st.integers(0, 2)) == 0:
         # limits set on the chain right after construction (relative to the start point, applied by Harnessed)
         lim = []
@@ -173,7 +184,7 @@ class Harnessed:
         self.limits = {}  # parameter -> [lower, upper] set on the chain after construction
         self._bnd, self._nn = {}, set()
         for w, i, width, frac in cfg.get("limits") or []:
-            x0 = float(inputs["start"][i])
+            x0 = float(np.asarray(inputs["start"], dtype=float)[i])
             cur = self.limits.setdefault(i, [-np.inf, np.inf])
             if w in ("bounds", "both"):
                 lo = x0 - width * frac
@@ -259,6 +270,24 @@ def make_inputs(cfg):
             r[r == 0] = 1  # (a zero start value makes the default widths / finite differences degenerate)
             out["start"] = r
     out["widths"] = np.array(cfg["widths"], dtype=float)
+    form = cfg.get("arg_form")
+    if form:
+        x = out["start"]
+        if form == "f32_widths":
+            out["widths"] = out["widths"].astype(np.float32)
+        elif form == "f32_start":
+            out["start"] = x.astype(np.float32)
+        elif form == "list_start":
+            out["start"] = x.tolist()
+        elif form == "readonly_start":
+            x.flags.writeable = False
+        elif form == "noncontig_start":
+            big = np.zeros(x.shape + (2,), dtype=x.dtype)
+            big[..., 0] = x
+            out["start"] = big[..., 0]
+        elif form == "fortran_start":
+            out["start"] = np.asfortranarray(x)
+        rctx.get().stats["fault_argument_form_" + form] += 1
     if cfg.get("bounds") is not None and cfg.get("bounds_as_object"):
         out["bounds_obj"] = _fresh_bounds(cfg)
     elif cfg.get("bounds") is not None:
@@ -355,7 +384,9 @@ def op_advance(h, m):
     if h.d >= 5:
         rctx.get().stats["probe_advance_with_5_or_more_parameters"] += 1
     try:
-        _budgeted(h, m * per, lambda: lib_call("advance(%d)" % m, _guard_hmc, h.chain.advance, m))
+        # (numpy integer scalars are what `len()`-free code often holds: m = numpy.int64(...))
+        m_arg = np.int64(m) if h.cfg.get("np_ints") else m
+        _budgeted(h, m * per, lambda: lib_call("advance(%d)" % m, _guard_hmc, h.chain.advance, m_arg))
     except StepExhausted as e:
         _dead_chain(h, "advance(%d)" % m, e)
 
